@@ -4,12 +4,14 @@ import (
 	"encoding/json"
 	"fmt"
 	"math/big"
+	"strings"
 	"time"
 
 	sdk "github.com/cosmos/cosmos-sdk/types"
 
 	base "github.com/regen-network/regen-ledger/x/ecocredit/v3/base/types/v1"
 	basket "github.com/regen-network/regen-ledger/x/ecocredit/v3/basket/types/v1"
+	market "github.com/regen-network/regen-ledger/x/ecocredit/v3/marketplace/types/v1"
 
 	"verif/harness/chain"
 )
@@ -36,6 +38,10 @@ var corpusScenarios = []corpusScenario{
 	{"buy-across-markets", false, corpusBuyAcrossMarkets},
 	{"put-beyond-34-digits", false, corpusPutBeyond34Digits},
 	{"all-zero-balance-rows", false, corpusAllZeroBalanceRows},
+	{"mass-expiry-260-orders", false, corpusMassExpiry},
+	{"update-own-own-foreign", false, corpusUpdateOwnOwnForeign},
+	{"buy-removed-order-again", false, corpusBuyRemovedOrderAgain},
+	{"origin-id-whitespace-replay", false, corpusOriginWhitespaceReplay},
 }
 
 func init() { QuickCounts["corpus"] = len(corpusScenarios) }
@@ -452,5 +458,108 @@ func corpusAllZeroBalanceRows(c Cfg) *Result {
 	g.Do(a.MsgRetire(0, "US-WA", "", chain.Credits(b1, "100")), "retire everything")
 	g.Commit()
 	g.GenesisRT("batch fully retired")
+	return g.Finish()
+}
+
+// ---- mass-expiry-260-orders (C06/C12) -----------------------------------------------------------------
+// Far more orders expire in one block than any plausible per-block processing limit: every one of them must
+// be removed AND refunded.
+
+func corpusMassExpiry(c Cfg) *Result {
+	g := NewG(c, chain.Options{GenesisTime: T0})
+	a := g.App
+	g.Begin(g.now.Add(6 * time.Second))
+	_, _, denom := g.corpusWorld()
+	exp := g.now.Add(time.Hour)
+	g.Do(a.MsgSell(0, chain.SellOrder(denom, "5", coin("stake", 10), true, nil)), "an order without expiration")
+	for i := 0; i < 13; i++ {
+		var orders []*market.MsgSell_Order
+		for j := 0; j < 20; j++ {
+			orders = append(orders, chain.SellOrder(denom, "0.25", coin("stake", int64(1+j)), true, &exp))
+		}
+		g.Do(a.MsgSell(i%3, orders...), fmt.Sprintf("20 orders of 0.25 expiring together (batch %d of 13)", i+1))
+	}
+	g.Commit()
+	g.Begin(g.now.Add(2 * time.Hour))
+	g.Do(a.MsgSell(1, chain.SellOrder(denom, "1", coin("stake", 7), true, nil)), "a sell after the mass expiry")
+	g.Commit()
+	g.Begin(g.nextTime())
+	g.Commit()
+	return g.Finish()
+}
+
+// ---- update-own-own-foreign (C03/C08) -----------------------------------------------------------------
+// One UpdateSellOrders whose list is [own order, the same order again, another seller's order]: the last
+// entry must make the whole message fail whatever precedes it.
+
+func corpusUpdateOwnOwnForeign(c Cfg) *Result {
+	g := NewG(c, chain.Options{GenesisTime: T0})
+	a := g.App
+	g.Begin(g.now.Add(6 * time.Second))
+	_, _, denom := g.corpusWorld()
+	g.Do(a.MsgSell(1, chain.SellOrder(denom, "10", coin("stake", 100), true, nil)), "bob's order")
+	bob := g.Rec.State().Sequences["SellOrder"]
+	g.Do(a.MsgSell(2, chain.SellOrder(denom, "10", coin("stake", 100), true, nil)), "alice's order")
+	alice := g.Rec.State().Sequences["SellOrder"]
+	g.Commit()
+	upd := func(id uint64, q string, ask int64) *market.MsgUpdateSellOrders_Update {
+		return &market.MsgUpdateSellOrders_Update{SellOrderId: id, NewQuantity: q, NewAskPrice: coin("stake", ask), DisableAutoRetire: true}
+	}
+	g.Begin(g.nextTime())
+	for _, l := range [][]*market.MsgUpdateSellOrders_Update{
+		{upd(bob, "11", 100), upd(bob, "12", 100), upd(alice, "100", 1)},
+		{upd(bob, "11", 100), upd(alice, "1", 1), upd(bob, "12", 100)},
+		{upd(bob, "11", 100), upd(bob, "11", 100), upd(bob, "11", 100), upd(alice, "10", 1)},
+		{upd(alice, "1", 1)},
+	} {
+		g.Do(a.MsgUpdateSellOrders(1, l...), expectNote(false, "C03", "foreign-order-updated", fmt.Sprintf("bob updates %d orders, one of them alice's", len(l))))
+	}
+	g.Do(a.MsgUpdateSellOrders(1, upd(bob, "11", 100), upd(bob, "12", 101)), expectNote(true, "C06", "own-order-updated-twice-rejected", "bob updates his own order twice"))
+	g.Commit()
+	return g.Finish()
+}
+
+// ---- buy-removed-order-again (C07/C06) -----------------------------------------------------------------
+// The seller has two equal orders for one batch; a buyer names the first one twice for its full quantity.
+// The second entry names an order that no longer exists: the message fails and nothing moves.
+
+func corpusBuyRemovedOrderAgain(c Cfg) *Result {
+	g := NewG(c, chain.Options{GenesisTime: T0})
+	a := g.App
+	g.Begin(g.now.Add(6 * time.Second))
+	_, _, denom := g.corpusWorld()
+	g.Do(a.MsgSell(1, chain.SellOrder(denom, "10", coin("stake", 100), true, nil), chain.SellOrder(denom, "10", coin("stake", 100), true, nil)), "two equal orders of one seller")
+	second := g.Rec.State().Sequences["SellOrder"]
+	first := second - 1
+	g.Commit()
+	g.Begin(g.nextTime())
+	bo := func(id uint64, q string) *market.MsgBuyDirect_Order {
+		return chain.BuyOrder(id, q, coin("stake", 100), true, "", "", coin("stake", 1000))
+	}
+	g.Do(a.MsgBuyDirect(3, bo(first, "10"), bo(first, "10")), expectNote(false, "C07", "removed-order-bought-again", "order bought in full twice in one message"))
+	g.Do(a.MsgBuyDirect(3, bo(first, "4"), bo(first, "6"), bo(first, "6")), expectNote(false, "C07", "removed-order-bought-again", "4 + 6 exhaust the order, then 6 again"))
+	g.Do(a.MsgBuyDirect(3, bo(first, "10"), bo(second, "10")), expectNote(true, "C07", "two-orders-one-message-rejected", "both orders bought in full in one message"))
+	g.Commit()
+	return g.Finish()
+}
+
+// ---- origin-id-whitespace-replay (C13) ------------------------------------------------------------------
+// Origin tx ids are compared exactly: an id with a trailing space is one id through every entry point.
+
+func corpusOriginWhitespaceReplay(c Cfg) *Result {
+	g := NewG(c, chain.Options{GenesisTime: T0})
+	a := g.App
+	g.Begin(g.now.Add(6 * time.Second))
+	cid := g.mkClass(0, []int{0}, "C")
+	pid := g.mkProject(0, cid, "")
+	for i, id := range []string{"0xabc ", "0xAbC", "tx 7", "a-b_c  "} {
+		o := &base.OriginTx{Id: id, Source: "polygon", Note: "corpus"}
+		denom := g.mkBatch(0, pid, date(2020, time.Month(1+i), 1), date(2021, 1, 1), true, o, fmt.Sprintf("create with origin id %q", id), g.iss(1, "10", ""))
+		g.Do(a.MsgMintBatchCredits(0, denom, []*base.BatchIssuance{g.iss(1, "10", "")}, &base.OriginTx{Id: id, Source: "Polygon", Note: "replay"}),
+			expectNote(false, "C13", "origin-tx-issued-twice", fmt.Sprintf("replay of origin id %q through MintBatchCredits", id)))
+		g.Do(a.MsgMintBatchCredits(0, denom, []*base.BatchIssuance{g.iss(1, "1", "")}, &base.OriginTx{Id: fmt.Sprintf("%sx%d", strings.TrimSpace(id), i), Source: "polygon"}),
+			expectNote(true, "C13", "fresh-origin-tx-rejected", "a different id"))
+	}
+	g.Commit()
 	return g.Finish()
 }
